@@ -390,6 +390,32 @@ def r09_6(ck, F):
               f"{len(feeds)} feed calls", fb.loc(0))
 
 
+def r09_6b(ck, F):
+    ck.rule("R09.6b", "foreign frames before Hello are ignored: in the receive half of exchange_hello both a decoded message "
+            "that is not Hello and a frame that fails to decode (ChMuxError::Protocol) lead back to the next recv_msg; only "
+            "other errors end the handshake",
+            "a leftover / newer-version / garbage frame precedes the peer's Hello (reused link): the handshake aborts with a "
+            "protocol error although a well-formed Reset + Hello follow", floor=2)
+    fam = F.family("chmux::mux::ChMux::exchange_hello")
+    recv = None
+    for x in fam:
+        if x.kind == "coroutine" and any((a.get("fut_fn") or "").endswith("recv_msg::{closure#0}") for a in x.awaits()):
+            recv = x
+    if recv is None:
+        raise mir.AnchorMissing("receive half of exchange_hello (the block awaiting recv_msg)")
+    a = [a for a in recv.awaits() if (a.get("fut_fn") or "").endswith("recv_msg::{closure#0}")][0]
+    poll, ready = a["poll_bb"], a["ready_bb"]
+    region = recv.reach([ready], avoid=[poll])
+    edges = outcome_edges(recv, region)
+    ok_back = [tb for sb, tb, m, e in edges if m == "Ok" and poll in recv.reach([tb], avoid=[sb])]
+    ck.expect(bool(ok_back), "exchange_hello#skip-other-messages", "a decoded non-Hello message leads to the next recv_msg",
+              "exchange_hello does not continue receiving after a message that is not Hello", recv.loc(ready))
+    proto_back = [tb for sb, tb, m, e in edges if m == "Protocol" and poll in recv.reach([tb], avoid=[sb])]
+    ck.expect(bool(proto_back), "exchange_hello#skip-undecodable", "a frame that fails to decode (Protocol error) leads to the next recv_msg",
+              "exchange_hello ends the handshake on a frame that fails to decode: ChMuxError::Protocol from recv_msg is not ignored "
+              "before Hello", recv.loc(ready))
+
+
 def r09_7(ck, F):
     ck.rule("R09.7", "framing: both LengthDelimitedCodec builders of Connect::io are little_endian() with "
             "length_field_length(4)", "length prefix in the wrong byte order / width", floor=2)
@@ -415,5 +441,5 @@ def r09_7(ck, F):
 
 
 def run(ck, F):
-    for r in (r09_1, r09_2, r09_3, r09_5, r09_6, r09_7):
+    for r in (r09_1, r09_2, r09_3, r09_5, r09_6, r09_6b, r09_7):
         ck.run_rule(r)
